@@ -178,6 +178,32 @@ def deprecatedObjc : Dep → List Char
 def deprecatedCppCli (d : Dep) : List Char :=
   cliDepHead ++ (match d with | .msg m => quoted m | _ => []) ++ [']']
 
+/-! ## from the rendered text to the bytes on disk
+
+`Generator.write_header` / `write_source` hand the rendered template to `FileReaderWriter.write_header` / `write_source`,
+which call `_write(filename, content)`: `filename.write_text(content)`. Nothing stands between the comment filter /
+the deprecation builders and the file: the characters on disk are the rendered characters. -/
+
+/-- `FileReaderWriter._write`: the content of the file afterwards -/
+def written (content : List Char) : List Char := content
+
+/-- a stage that deletes every occurrence of one character (what a writer that "cleans" the rendered file would do) -/
+def eraseChar (z : Char) (l : List Char) : List Char := l.filter (· != z)
+
+/-- does `string_literal` write an escape sequence for `c`? -/
+def needsEsc (c : Char) : Bool := (tableGet escTable c).isSome
+
+/-- a `string_literal` that writes escape sequences for the first `n` characters that need one only
+    (`re.sub(pattern, repl, text, n)`) -/
+def escDepN : Nat → List Char → List Char
+  | _, [] => []
+  | n, c :: r =>
+    if needsEsc c = true then
+      match n with
+      | 0 => c :: escDepN 0 r
+      | k + 1 => escChar c ++ escDepN k r
+    else c :: escDepN n r
+
 /-! ## where comment-derived values occur in the templates (facts regenerated from the Jinja ASTs on every run) -/
 
 /-- one occurrence of a comment-carrying attribute (`comment`, `constructor_comment`, `deprecated`, `attributes`) in a template:
